@@ -2,6 +2,7 @@
 mod c12;
 mod c22;
 mod c23;
+mod c32;
 mod c34;
 
 fn main() {
@@ -11,7 +12,23 @@ fn main() {
         "c12" => c12::main(),
         "c22" => c22::main(),
         "c23" => c23::main(),
+        "c32" => c32::main(),
         "c34" => c34::main(),
+        "sql" => {
+            // confirmation helper: run one SQL statement in a default SessionContext and print the result
+            let q = a.get(2).cloned().unwrap_or_default();
+            let rt = tokio::runtime::Runtime::new().unwrap();
+            rt.block_on(async {
+                let ctx = datafusion::prelude::SessionContext::new();
+                match ctx.sql(&q).await {
+                    Ok(df) => match df.collect().await {
+                        Ok(b) => println!("{}", arrow::util::pretty::pretty_format_batches(&b).unwrap()),
+                        Err(e) => println!("ERR {e}"),
+                    },
+                    Err(e) => println!("ERR {e}"),
+                }
+            });
+        }
         _ => {
             eprintln!("usage: vfacts <c23|c22|c12|c34|c32> [options]");
             std::process::exit(2);
